@@ -751,6 +751,20 @@ func init() {
 			if serr != nil {
 				c.Violate("C05:rejects-conforming", "Exchange failed against a conforming peer: "+serr.Error(), rep)
 			}
+			// "accepts ... forwarder lists with password hashes": the session knows exactly the addresses the peer
+			// announced (the hashes are the peer's business), in order - it asks its mailbox for messages to them
+			if cfg.fwLine != "" && serr == nil {
+				var want, got []string
+				for _, it := range strings.Fields(strings.TrimPrefix(cfg.fwLine, ";FW:")) {
+					want = append(want, strings.SplitN(it, "|", 2)[0])
+				}
+				for _, a := range sess.RemoteForwarders() {
+					got = append(got, a.Addr)
+				}
+				if strings.Join(got, " ") != strings.Join(want, " ") {
+					c.Violate("C05:forwarders-not-accepted", fmt.Sprintf("the peer announced the forwarders %v (%q), the session took %v", want, cfg.fwLine, got), rep)
+				}
+			}
 			// prescribed outcome
 			for mid, want := range cfg.expect {
 				a := byte('-')
